@@ -246,7 +246,8 @@ Fixpoint paths (t : rt) : list (list Z) :=
 Notation paths_f := (flat_map paths).
 
 Definition copy1 (x c : rt) : Prop :=
-  paths x = paths c /\ Forall (fun y => Nat.odd (rid y) = true /\ gone y = false) (pre x).
+  paths x = paths c /\ Forall (fun y => Nat.odd (rid y) = true /\ gone y = false) (pre x) /\
+  ids_t x = map id1 (ids_t c).
 
 Definition is_some {X} (o : option X) : bool := match o with Some _ => true | None => false end.
 Definition order_mark (x : rt) : bool := negb (new x) && negb (gone x) && is_some (mark x).
@@ -312,8 +313,23 @@ Proof.
     specialize (IH c Hc [] (or_introl eq_refl)). rewrite Forall_forall in IH. auto.
 Qed.
 
+Lemma copy_child_ids : forall n m, ids_t (copy_child m n) = map id1 (ids_t n).
+Proof.
+  induction n as [id i ch IH] using rt_ind'. intros m. unfold ids_t. cbn [copy_child pre map rid]. f_equal.
+  induction ch as [|c ch IHc]; [reflexivity|]. inversion IH as [|? ? Hc Hch]; subst.
+  cbn [map flat_map]. rewrite !map_app. unfold ids_t in Hc. now rewrite Hc, IHc.
+Qed.
+
+Lemma add_top_ids c1 : ids_t (add_top c1) = map id1 (ids_t c1).
+Proof.
+  destruct c1 as [id i ch]. unfold add_top, ids_t, copy_children. cbn [rid rinfo rch pre map]. f_equal.
+  induction ch as [|c ch IHc]; [reflexivity|]. cbn [map flat_map]. rewrite !map_app.
+  pose proof (copy_child_ids c m_added) as Hc. unfold ids_t in Hc. now rewrite Hc, IHc.
+Qed.
+
 Lemma add_top_copy1 c1 : copy1 (add_top c1) c1.
 Proof.
+  refine ((fun H => conj (proj1 H) (conj (proj2 H) (add_top_ids c1))) _).
   destruct c1 as [id i ch]. split.
   - unfold add_top. cbn [rid rinfo rch].
     change (paths (T (id1 id) (res_info i m_added) (copy_children m_added ch)) = paths (T id i ch)).
@@ -603,11 +619,12 @@ Proof.
     rewrite map_info_rid. rewrite (proj2 (KN x Hx)). now apply L3.
   - intros x' Hx' Hn'. apply in_map_iff in Hx'. destruct Hx' as [x [<- Hx]].
     destruct (KN x Hx) as [K N]. rewrite N in Hn'. rewrite K.
-    destruct (L4 x Hx Hn') as [Hno [c1 [H1 [K1 [P O]]]]]. split; [exact Hno|]. exists c1.
-    refine (conj H1 (conj K1 (conj _ _))).
+    destruct (L4 x Hx Hn') as [Hno [c1 [H1 [K1 [P [O I]]]]]]. split; [exact Hno|]. exists c1.
+    refine (conj H1 (conj K1 (conj _ (conj _ _)))).
     + rewrite map_info_paths; [exact P|apply step_ok_eqc, Hg].
     + rewrite map_info_pre. apply Forall_forall. intros y' Hy'. apply in_map_iff in Hy'. destruct Hy' as [y [<- Hy]].
       rewrite Forall_forall in O. apply (step_node g y Hg). apply O, Hy.
+    + rewrite <- I. unfold ids_t. rewrite map_info_pre, map_map. apply map_ext. intros y. apply map_info_rid.
   - intros x' Hx' Hn'. apply in_map_iff in Hx'. destruct Hx' as [x [<- Hx]].
     destruct (KN x Hx) as [K N]. rewrite N in Hn'. rewrite K.
     destruct (step_node g x Hg) as [_ [_ [_ [_ [_ [S _]]]]]]. destruct (S (L3 x Hx)) as [_ S']. destruct (S' Hn') as [G _].
@@ -898,7 +915,7 @@ Proof.
     pose proof (gone_new_excl _ G) as Hn. apply (proj1 (L5 x Hx Hn) G). rewrite K. now apply in_map.
   - intros x y Hx Hy K. apply filter_In in Hx. destruct Hx as [Hx G]. apply negb_true_iff in G.
     destruct (new x) eqn:Hn.
-    + destruct (L4 x Hx Hn) as [_ [c1 [H1 [K1 [P O]]]]].
+    + destruct (L4 x Hx Hn) as [_ [c1 [H1 [K1 [P [O _]]]]]].
       assert (c1 = y) by (apply (NoDup_map_inj key ch1); auto; congruence). subst c1.
       rewrite drop10_id.
       * cbn [flat_map]. rewrite app_nil_r, P. apply Permutation_refl.
